@@ -42,6 +42,26 @@
 //       .unserved_passengers_delta_exact (or_unserved_after: the delta of the first update, then the one of the second on the
 //       table the first one leaves), .maintenance_violation_exact (or_transitions_after: transitions consistent with the new
 //       tours, membership, violation == from-scratch sum, types of neither participant untouched).
+//   (6) CLOSURE -- C10.override_reassign.result_satisfies_the_schedule_invariants_again (the induction step of C10 "After any
+//       sequence of schedule modifications …" / C09 "… for every reachable schedule"): on Ok the result `res` satisfies the
+//       SCHEDULE-INVARIANT part of or_pre again, conjunct by conjunct (lemma_orc_* in env/override_reassign_shim.vs: lemmas about
+//       the CONTRACT -- their hypotheses are or_pre and the effect clauses (1) / (3) read on res):
+//         ids        res.ids_ok();
+//         listings   listings_ok(res …);
+//         usage      usage_exact(res.depot_usage, &res.network, res.vehicles, res.tours);
+//         part_ok    orc_parts_after: EVERY v with self.part_ok(v) that still has a tour in res satisfies res.part_ok(v) (the
+//                    provider if it still exists, the receiver, every untouched vehicle / dummy).  MAGNITUDE A-len is not an
+//                    invariant of the operation (the receiver's tour grows): for v == receiver under the extra hypothesis
+//                    tour_len_ok(or_gained).  orc_new_dummy_part: the new dummy tour satisfies part_ok PROVIDED it is wf (its
+//                    connectivity is A-path / D9: Tour::new_dummy's contract does not state wf);
+//         cycles     res.or_transitions_ok(), INCLUDING the magnitude clause len_sum + 2 <= 2^17 (no extra hypothesis: no real
+//                    vehicle is created; counting lemma lemma_orc_total_len_is_lookup, text of env/sched_ctor_shim.vs);
+//         costs      res.orc_costs_cover(p, r): the costs clause of or_pre, verbatim, for the same two participants.
+//       Treated as ABOUT THE ARGUMENTS (not targets): p != r; the segment is a segment of p's tour; the u64 headroom clause
+//       (costs + costs of the two NEW tours); or_counters_ok (A-counter of the two NEW tours); or_pre_move / or_pre_displace
+//       (tfu_pre for the moved / displaced nodes: per-node formation facts and u32 headroom).  The bundle has NO schedule-wide
+//       formations / tours agreement clause (it enters through tfu_pre, per moved node), so none is re-established here beyond
+//       (2); `tf.dom()` is unchanged (or_formations_elsewhere).
 //
 // ASSUMPTIONS introduced / used by this slice:
 //   A-stub   every callee is a trusted stub with EXACTLY the contract text of the slice that verifies its body (hashes
@@ -92,7 +112,11 @@
 //   * or_pre_displace: if r is real and D is not made of depots only: tfu_pre for (Some(r), None, D) on EVERY table / pair
 //     the first update may leave (or_between).
 //
-// NOT covered: on Err nothing is claimed except (4) / (5) (in particular not WHEN the formation updates refuse: Ok <==> all_ok is
+// NOT covered: closure of the costs clause for OTHER pairs of vehicles (the clause of or_pre is pairwise -- "costs cover the two
+//   participants' tours" -- and as such not inductive: it is a consequence of C09 "costs == sum of all tours' costs + non-negative
+//   terms", which this vocabulary does not have); tour_len_ok of the receiver's new tour (A-len, hypothesis of (6)); wf of the new
+//   dummy tour (A-path / D9, hypothesis of (6)); formations / tours agreement as a schedule-wide invariant (not in the bundle).
+//   On Err nothing is claimed except (4) / (5) (in particular not WHEN the formation updates refuse: Ok <==> all_ok is
 //   available from the stubs but not exported); when Tour::remove returns None for the provider (its contract does not say);
 //   that the callers establish the preconditions; that M and D are disjoint (not needed); connectivity of the new dummy tour
 //   (A-path / D9, see slices/remove_segment.vs); the input schedule `self` is `&self` (untouched by the type system).
@@ -348,6 +372,8 @@ use self::trs::*;
         final(dummy_tours)@ == old(dummy_tours)@.insert(new_dummy_idx, new_dummy_tour), // @obl C13.add_dummy_tour.tour_stored_under_id
         ids_gain(old(dummy_ids_sorted)@, final(dummy_ids_sorted)@, new_dummy_idx), // @obl C13.add_dummy_tour.id_list_gains_exactly_id
         sorted_cmp(final(dummy_ids_sorted)@), // @obl C13.add_dummy_tour.id_list_stays_sorted
+        // CLOSURE: the only schedule invariant among the preconditions (the id list is sorted) holds again
+        sorted_cmp(final(dummy_ids_sorted)@), // @obl C10.add_dummy_tour.result_satisfies_the_schedule_invariants_again
 //@end
 //@item solution/src/schedule/modifications.rs Schedule::update_transitions_and_violation_fast : trusted
 //@sig
@@ -419,6 +445,23 @@ use self::trs::*;
         r is Ok ==> self.or_unserved_after(segment, provider, receiver, r->Ok_0.0.unserved_passengers), // @obl C09.override_reassign.unserved_passengers_delta_exact
         r is Ok ==> self.or_transitions_after(provider, receiver, r->Ok_0.0.next_period_transitions@, r->Ok_0.0.maintenance_violation,
             r->Ok_0.0.vehicles@, r->Ok_0.0.tours@), // @obl C09.override_reassign.maintenance_violation_exact
+        // (6) CLOSURE, the induction step of C10 ("After any sequence of schedule modifications …") / C09 ("… for every reachable
+        // schedule"): the result satisfies the schedule-invariant part of or_pre AGAIN, conjunct by conjunct
+        // ids (ids_ok)
+        r is Ok ==> r->Ok_0.0.ids_ok(), // @obl C10.override_reassign.result_satisfies_the_schedule_invariants_again
+        // listings (listings_ok)
+        r is Ok ==> listings_ok(r->Ok_0.0.vehicles@, r->Ok_0.0.dummy_tours@, r->Ok_0.0.vehicle_ids_grouped_and_sorted@, r->Ok_0.0.dummy_ids_sorted@), // @obl C10.override_reassign.result_satisfies_the_schedule_invariants_again
+        // depot usage table (usage_exact, over the RESULT's network)
+        r is Ok ==> usage_exact(r->Ok_0.0.depot_usage@, &r->Ok_0.0.network, r->Ok_0.0.vehicles@, r->Ok_0.0.tours@), // @obl C10.override_reassign.result_satisfies_the_schedule_invariants_again
+        // tours / participants (part_ok): every vehicle or dummy that was part_ok and still has a tour is part_ok in the result
+        // (provider if it still exists, receiver, all untouched ones); magnitude A-len: for the receiver under the extra
+        // hypothesis tour_len_ok(or_gained); the new dummy tour under the hypothesis that it is well-formed (A-path / D9)
+        r is Ok ==> self.orc_parts_after(segment, provider, receiver, &r->Ok_0.0), // @obl C10.override_reassign.result_satisfies_the_schedule_invariants_again
+        r is Ok ==> self.orc_new_dummy_part(segment, provider, receiver, &r->Ok_0.0), // @obl C10.override_reassign.result_satisfies_the_schedule_invariants_again
+        // rotation cycles (or_transitions_ok, INCLUDING the magnitude clause: no real vehicle is created)
+        r is Ok ==> r->Ok_0.0.or_transitions_ok(), // @obl C10.override_reassign.result_satisfies_the_schedule_invariants_again
+        // costs relation (text of or_pre): the new costs cover the new tours of the (real) participants
+        r is Ok ==> r->Ok_0.0.orc_costs_cover(provider, receiver), // @obl C10.override_reassign.result_satisfies_the_schedule_invariants_again
 //@first
         // the big predicates stay folded in this body: the lemmas of env/override_reassign_shim.vs unfold them
         hide(Schedule::or_pre);
@@ -446,6 +489,14 @@ use self::trs::*;
         hide(usage_exact);
         hide(usage_exact_for);
         hide(usage_same_except_two);
+        hide(Network::wf);
+        hide(Tour::is_start_pos);
+        hide(Tour::is_end_pos);
+        hide(Schedule::part_ok);
+        hide(Schedule::or_transitions_ok);
+        hide(Schedule::orc_parts_after);
+        hide(Schedule::orc_new_dummy_part);
+        hide(Schedule::orc_costs_cover);
         let ghost mut ndt: Option<Tour> = None;
         proof { lemma_or_setup(self, segment, provider, receiver); }
 //@before "let moved_nodes"
@@ -495,6 +546,10 @@ use self::trs::*;
             lemma_or_formations_post(self, segment, provider, receiver, tf1, u1, train_formations@);
             lemma_or_unserved_post(self, segment, provider, receiver, tf1, u1, unserved_passengers);
             lemma_usage_exact_after(self, self.depot_usage@, depot_usage@, self.vehicles@, self.tours@, Some(provider), stp, receiver, ntr); // @obl C09.override_reassign.depot_usage_exact
+            // closure: from the effect clauses above, for whatever schedule Schedule::new builds from these components
+            assert(self.or_transitions_after(provider, receiver, next_period_transitions@, maintenance_violation, vehicles@, tours@)); // @obl C09.override_reassign.maintenance_violation_exact
+            lemma_orc_closure(self, segment, provider, receiver, new_dummy_opt, vehicles@, tours@, dummy_tours@, vehicle_counter,
+                next_period_transitions@, maintenance_violation, costs); // @obl C10.override_reassign.result_satisfies_the_schedule_invariants_again
         }
 //@end
 
